@@ -81,6 +81,16 @@ class UUIDFacade:
         return getattr(_uuid, n)
 
 
+class _NoSleep:
+    time = staticmethod(_time.time)
+    monotonic = staticmethod(_time.monotonic)
+
+    @staticmethod
+    def sleep(d):
+        pass
+
+
+_NOSLEEP = _NoSleep()
 _saved = None
 _real_sleep = _time.sleep
 _real_sock_init = _socket.socket.__init__
@@ -186,4 +196,12 @@ def reset_between_runs():
     ctx.annotations = {}
     ctx.response_annotations = {}
     ctx.correlation_id = None
-    gc.collect()
+    # daemons of the previous run are collected here: SocketServer_Threadpool.__del__ -> Pool.close() sleeps and joins
+    # for real once the seams are gone; give those finalizers a clock that does not wait
+    for m in _TIME_MODS:
+        m.time = _NOSLEEP
+    try:
+        gc.collect()
+    finally:
+        for m in _TIME_MODS:
+            m.time = _time
